@@ -33,13 +33,14 @@ VerdictBytes(t) ==
 
 (* the key keeps its own general token next to a number, a letter or a string:
    observed tokens = reference tokens, and the reference has the key token in place *)
+LexC(c, x) == IF "vflag" \in DOMAIN c /\ c.vflag THEN LexV(x) ELSE Lex(x)        \* flag V: one-character names
 CtxOK(key, c) ==
-    LET want == Lex(c.pre) \o <<Tok("general", key)>> \o Lex(c.post)
+    LET want == LexC(c, c.pre) \o <<Tok("general", key)>> \o LexC(c, c.post)
     IN IF "loose" \in DOMAIN c /\ c.loose
        \* after a digraph prefix (k, ∆, ø, Þ, ¨) most characters are absorbed into a two-character element;
        \* where the documented scanning keeps the key apart (the branch separator), so must the implementation
-       THEN c.err = "" /\ (Lex(c.pre \o key \o c.post) = want => c.toks = want)
-       ELSE c.err = "" /\ c.toks = want /\ Lex(c.pre \o key \o c.post) = want
+       THEN c.err = "" /\ (LexC(c, c.pre \o key \o c.post) = want => c.toks = want)
+       ELSE c.err = "" /\ c.toks = want /\ LexC(c, c.pre \o key \o c.post) = want
 
 VerdictKey(t) ==
     IF \E i \in 1..Len(t.key) : ~InCodepage(t.key[i]) THEN "violation:not-in-codepage"
@@ -49,6 +50,7 @@ VerdictKey(t) ==
     ELSE IF \E i \in 1..Len(t.ctxs) : ~CtxOK(t.key, t.ctxs[i]) THEN "violation:not-one-token-in-context"
     ELSE IF t.nocc > 1 THEN "violation:duplicate-key"
     ELSE IF t.table = "elements" /\ t.nocc = 1 /\ t.arity # t.runarity THEN "violation:table-arity-differs-from-source"
+    ELSE IF "lamarity" \in DOMAIN t /\ t.lamarity # -1 /\ t.lamarity # t.runarity THEN "violation:arity-as-modifier-operand"
     ELSE IF ~LexesAsOneToken(t.key) THEN "drift:spec-lexer"
     ELSE IF t.table = "elements" /\ ~ParsesAsElement(t.key) THEN "drift:spec-parser"
     ELSE "ok"
